@@ -131,12 +131,16 @@ fn check_file(ctx: &Ctx, stream: &str, idx: u64, label: &str, cfg: &WCfg, entrie
             );
             break;
         }
-        if bytes_read > allowed {
+        // a fixed read-ahead allowance per load keeps buffered readers legal; what is bounded is
+        // the dependence on the file size
+        let slack = 65_536 * (loads + 1);
+        ctx.max("max_bytes_read_beyond_loaded_blocks_in_one_operation", bytes_read.saturating_sub(allowed));
+        if bytes_read > allowed + slack {
             ctx.violation(
                 "reads-beyond-loaded-blocks",
                 stream,
                 idx,
-                detail("a single cursor operation read more bytes than the blocks it loaded hold", format!("{} read {} bytes, the {} blocks it loaded hold {} bytes", op.render(), bytes_read, loads, allowed)),
+                detail("a single cursor operation read far more bytes than the blocks it loaded hold (more than a 64 KiB read-ahead allowance per load)", format!("{} read {} bytes, the {} blocks it loaded hold {} bytes", op.render(), bytes_read, loads, allowed)),
             );
             break;
         }
@@ -190,13 +194,14 @@ pub fn run(ctx: &Ctx) -> i32 {
     });
     // big files: I/O must not grow with the number of entries
     let sizes: Vec<usize> = if ctx.tier == Tier::Thorough { vec![200_000, 500_000, 1_000_000, 2_000_000] } else { vec![50_000, 200_000, 400_000] };
-    ctx.par("big", sizes.len() * 3, true, |idx, rng| {
+    ctx.par("big", sizes.len() * 6, true, |idx, rng| {
         let n = sizes[idx as usize % sizes.len()];
         let entries: Vec<Entry> = (0..n as u32).map(|i| (i.to_be_bytes().to_vec(), vec![(i % 7) as u8; (i % 5) as usize])).collect();
         let mut cfg = WCfg::plain();
-        cfg.levels = Some((idx / sizes.len() as u64) as u8 * 2);
+        cfg.levels = Some(((idx / sizes.len() as u64) % 3) as u8 * 2);
         cfg.block_size = Some(*rng.pick(&[1024usize, 8192]));
-        cfg.codec = *rng.pick(&[grenad::CompressionType::None, grenad::CompressionType::Snappy]);
+        cfg.codec = gen::codecs()[idx as usize % gen::codecs().len()];
+        cfg.level = 1;
         check_file(ctx, "big", idx, &format!("big/{}", n), &cfg, &entries, rng, n_ops * 2, &maxes);
     });
     let mut per = J::obj();
@@ -209,7 +214,7 @@ pub fn run(ctx: &Ctx) -> i32 {
     }
     ctx.finish(
         "exploration",
-        "online checker over the read trace of a monitored source, windowed by public-call/return: Reader::new may only read bytes of the final 22 bytes and at most 44 bytes in total; for each single cursor operation (first, last, next, prev, GE, LE, EQ) issued along generated histories (fresh, reset, warm, cloned cursors, scans sized to cross block and index-block edges) a block load = a read starting at a block's first byte (block offsets and sizes from the independent decoder); loads must be <= 2 x (levels + 2) and bytes read <= sum of (stored size + 8) of the loaded blocks. Files: index levels 0..8/16/64/255, random and deep layouts, and big files (quick: up to 200000 entries; thorough: up to 2000000). evaluations = files (n operations each); non-trivial = file with >= 2 data blocks; distinct = distinct (config, first entries, entry count)",
+        "online checker over the read trace of a monitored source, windowed by public-call/return: Reader::new may only read bytes of the final 22 bytes and at most 44 bytes in total; for each single cursor operation (first, last, next, prev, GE, LE, EQ) issued along generated histories (fresh, reset, warm, cloned cursors, scans sized to cross block and index-block edges) a block load = a read starting at a block's first byte (block offsets and sizes from the independent decoder); loads must be <= 2 x (levels + 2) and bytes read <= sum of (stored size + 8) of the loaded blocks plus a fixed 64 KiB read-ahead allowance per load (so that I/O cannot grow with the file size). Files: index levels 0..8/16/64/255, random and deep layouts, and big files (quick: up to 200000 entries; thorough: up to 2000000). evaluations = files (n operations each); non-trivial = file with >= 2 data blocks; distinct = distinct (config, first entries, entry count)",
         &["a load is a read that starts at a block's first byte, however the library seeks", "operation results are not judged here (C02/C03 do that)"],
         J::obj().set("max_block_loads_per_operation_kind_and_levels", per),
     )
